@@ -514,6 +514,8 @@ def run(ctx):
     _premises.tree_editor(ctx)
     _premises.deep_copies(ctx)
     _premises.linear_use(ctx)
+    # the candidate family of a move is that move's: nothing carried over from an earlier call (C14.K7 / K8)
+    _premises.no_call_state(ctx)
 
 
 _G = "phyclone/mcmc/gibbs_mh.py"
